@@ -25,7 +25,7 @@ CHECKS["C04"] = dict(
    design="5/C04")
 CHECKS["C05"] = dict(
    technique="same enumerations as C04 with Distinct (table seam with chosen hashes + public API); one-representative-per-class oracle",
-   text="grouper.Distinct under every chosen collision/growth pattern and QFrame.Distinct on every small frame, key selection (including none = all columns), Null setting and index shape; oracle: exactly one unmodified input row per key class.",
+   text="grouper.Distinct under every chosen collision/growth pattern and QFrame.Distinct on every small frame (plus string keys of 21 lengths at 9 byte alignments), key selection (including none = all columns), Null setting and index shape; oracle: exactly one unmodified input row per key class.",
    note="Trusted: partition model; cell values limited to the per-type alphabets.",
    design="5/C05")
 
@@ -67,7 +67,7 @@ CHECKS["C10"] = dict(
 
 CHECKS["C12"] = dict(
    technique="deviation-bounded exhaustive exploration of io.Reader answers (read fragmentation, EOF placement) x grammar-generated documents x configurations, on ReadCSV and on the real scanner through a buffer-capacity seam; differential + reference-parser oracles",
-   text="The harness owns the io.Reader: for every RFC 4180 document of the grammar family it enumerates every read schedule with up to 2 (quick) / 3 (thorough) departures from the single-read default, all uniform k-byte readers and both EOF conventions, and for documents up to 11 (13) bytes every one of the 2^(L-1) fragmentations, also against the real scanner started with a 1-8 byte buffer so refill/shift/reallocation happen on tiny inputs. Every execution must equal the single-read result (differential) and the frame denoted by a reference parser plus type inference; configuration product, long fields around the 1024/2049-byte buffer boundaries and the RowCountHint resize are enumerated as families.",
+   text="The harness owns the io.Reader: for every RFC 4180 document of the grammar family it enumerates every read schedule with up to 2 (quick) / 3 (thorough) departures from the single-read default, all uniform k-byte readers and both EOF conventions, and for documents up to 11 (13) bytes every one of the 2^(L-1) fragmentations, also against the real scanner started with a 1-8 byte buffer so refill/shift/reallocation happen on tiny inputs. Every execution must equal the single-read result (differential) and the frame denoted by a reference parser plus type inference; configuration product, long fields around the 1024/2049-byte buffer boundaries, rows of 5000..140000 bytes followed by short rows, enum columns at the 255-value limit and the RowCountHint resize are enumerated as families.",
    note="Trusted: model/csv.go reference parser, strconv-based type inference. Zero-byte reads without error and malformed documents are outside the property.",
    design="5/C12")
 
@@ -91,7 +91,7 @@ CHECKS["C16"] = dict(
 CHECKS["C15"] = dict(
    level="fault_enumeration",
    technique="exhaustive fault-position enumeration: harness-owned io.Reader / io.Writer / database/sql driver failing at every byte offset, Write call or driver call of the fault-free trace",
-   text="For ReadCSV/ReadJSON a reader failing at every byte offset 0..L (L = error instead of EOF) with 0-2 bytes delivered together with the error and six read fragmentations; for ToCSV/ToJSON a writer failing at every Write call and short-writing at every byte offset (incl. an output larger than encoding/csv's buffer); for ReadSQL/ToSQL an in-memory driver failing at Prepare, Query, every Rows.Next (incl. instead of EOF) and every Exec. Whenever the injected fault was actually returned to the code under test the call must report an error, an error-free result must be the complete fault-free result, and nothing may panic.",
+   text="For ReadCSV/ReadJSON a reader failing at every byte offset 0..L (L = error instead of EOF) with 0-2 bytes delivered together with the error, six read fragmentations and three error values (a plain error, io.ErrUnexpectedEOF, an error wrapping io.EOF); for ToCSV/ToJSON a writer failing at every Write call and short-writing at every byte offset (incl. an output larger than encoding/csv's buffer); for ReadSQL/ToSQL an in-memory driver failing at Prepare, Query, every Rows.Next (incl. instead of EOF) and every Exec. Whenever the injected fault was actually returned to the code under test the call must report an error, an error-free result must be the complete fault-free result, and nothing may panic.",
    note="Faults are permanent from their position on. One exemption: ReadJSON need not report an error that arrives together with the last bytes of a complete document. Commit is not exercised (qframe never calls it).",
    design="5/C15")
 
@@ -115,7 +115,7 @@ CHECKS["C17"] = dict(
 
 CHECKS["C11"] = dict(
    technique="stateless schedule exploration under a hand-written cooperative scheduler (all interleavings at callback granularity, preemption-bounded for 3 threads) plus an exhaustive-over-pairs free-running pass under the Go race detector",
-   text="Two logical threads running every pair of 12 callback-bearing operations (and each against 23 callback-free ones) on the same frame, on a slice / sorted copy / column copy of it, or both on one frame that was itself derived by adding columns are executed under EVERY interleaving of their scheduling points (operation start/end and each user callback invocation); three threads under preemption bound 2 (3). Each operation must return what it returns alone and the shared frame must be unchanged. Because qframe has no synchronisation operations the scheduler cannot interleave inside an operation, so unsynchronised accesses are decided by a separate free-running pass of every pair and self-pair of all 35 operations x 5 sharing relations in a -race build (happens-before detection makes the verdict schedule-independent for two synchronisation-free operations forked from a barrier).",
+   text="Two logical threads running every pair of 12 callback-bearing operations (and each against 23 callback-free ones) on the same frame, on a slice / sorted copy / column copy of it, or both on one frame that was itself derived by adding columns are executed under EVERY interleaving of their scheduling points (operation start/end and each user callback invocation); three threads under preemption bound 2 (3). Each operation must return what it returns alone and the shared frame must be unchanged. Because qframe has no synchronisation operations the scheduler cannot interleave inside an operation, so unsynchronised accesses are decided by a separate free-running pass of every pair and self-pair of all 35 operations x 5 sharing relations in a -race build (happens-before detection makes the verdict schedule-independent for two synchronisation-free operations forked from a barrier). Every scheduler execution and every second race repetition starts cold (fresh frames, expected results computed on an equal twin) and after a primer of failing calls, so state that is built lazily or left behind by error paths is built/used under the schedule.",
    note="Trusted: Go race detector (4 shadow accesses per word); the cooperative scheduler in core/sched.go (replay of a prefix must reproduce the recorded enabled sets). Access-level interleavings are not enumerated; see DESIGN.md C11.",
    design="5/C11")
 
